@@ -455,12 +455,44 @@ func cmdCheck(args []string) {
 						defer wg2.Done()
 						ex2 := res.Ex
 						if strings.HasSuffix(v.Solver, "[int]") || strings.HasSuffix(v.Solver, "[bv]") {
-							return // proved in the other encoding: keep (already slow path); marked below
+							// proved in the other encoding (fallback or `int:` hint): no cheap re-run exists;
+							// claimed only when the whole attempt was fast
+							if v.Seconds > 6 {
+								v.Status = "unstable"
+								v.Solver = fmt.Sprintf("discharged in the other encoding only after %.1fs", v.Seconds)
+								return
+							}
+							for _, sd := range []int{seed + 1, seed + 2} {
+								c2 := *solver
+								c2.seed = sd
+								c2.perSolver = map[string]int{}
+								c2.mu = &sync.Mutex{}
+								v2 := c2.solve(ex2, v.Obl)
+								if v2.Status != "unsat" || v2.Seconds > 6 {
+									v.Status = "unstable"
+									v.Solver = fmt.Sprintf("other encoding: %s after %.1fs under seed %d", v2.Status, v2.Seconds, sd)
+									return
+								}
+							}
+							return
 						}
-						v2 := conf.solve(ex2, v.Obl)
-						if v2.Status != "unsat" {
-							v.Status = "unstable"
-							v.Solver = "discharged only with the full budget"
+						// re-discharge with a third of the budget under two other solver seeds (the checks are run
+						// with VERIF_SEED set by the caller): a proof that depends on the seed or needs many
+						// cubes / stages is the kind that times out elsewhere
+						for _, sd := range []int{seed + 1, seed + 2} {
+							c2 := conf
+							c2.seed = sd
+							v2 := c2.solve(ex2, v.Obl)
+							if v2.Status != "unsat" {
+								v.Status = "unstable"
+								v.Solver = fmt.Sprintf("not re-discharged with a third of the budget under seed %d", sd)
+								return
+							}
+							if v2.Seconds > 5 {
+								v.Status = "unstable"
+								v.Solver = fmt.Sprintf("re-discharged only after %.1fs under seed %d", v2.Seconds, sd)
+								return
+							}
 						}
 					}(v)
 				}
@@ -484,9 +516,18 @@ func cmdCheck(args []string) {
 					wg2.Add(1)
 					go func(v *Verdict) {
 						defer wg2.Done()
-						v2 := pat.solve(res.Ex, v.Obl)
+						v2 := &Verdict{Status: "skipped"}
+						if !(v.AltEx != nil && v.Obl.Mode != "") {
+							v2 = pat.solve(res.Ex, v.Obl)
+						}
 						if v2.Status == "unsat" {
 							v.Status, v.Solver = "unsat", v2.Solver+"(retry)"
+						} else if v.AltEx != nil && v.AltObl != nil {
+							// the clause is (also) decided in the other integer encoding: retry it there
+							v3 := pat.solve(v.AltEx, v.AltObl)
+							if v3.Status == "unsat" {
+								v.Status, v.Solver = "unsat", v3.Solver+"[other](retry)"
+							}
 						}
 					}(v)
 				}
